@@ -19,7 +19,7 @@ RULE = ("cases = seeded programs whose top-level variables are never reassigned 
         "but outside its children); distinct key = (expression kind, enclosing construct, value type shape)")
 ASSUME = ["first-evaluation values come from gm/ref/interp.py (trace mode)",
           "eval-up-to re-evaluates one item in the post-run environment, so programs never reassign top-level state"]
-BATCH = 3
+BATCH = 2
 FLOOR = {"quick": 25, "thorough": 50}
 BUDGET = {"quick": 45, "thorough": 840}
 
